@@ -97,6 +97,7 @@ type c11Stmt struct {
 	Order    [][2]string
 	Limit    int
 	Renamed  map[string]string // identifier renaming applied to the base statement (nil: neutral names)
+	WithFirst bool             // WITH (...) written before HAVING (the repository's own tests write both orders)
 }
 
 func (s c11Stmt) parts() []string {
@@ -121,7 +122,7 @@ func (s c11Stmt) parts() []string {
 			"global": "GLOBAL WINDOW TRIGGER WHEN count(*) >= 2"}[s.Window]
 		p = append(p, "GROUP", "BY", s.Group+",", w)
 	}
-	if s.Having != "" {
+	if s.Having != "" && !s.WithFirst {
 		p = append(p, "HAVING", s.Having)
 	}
 	switch s.With {
@@ -129,6 +130,9 @@ func (s c11Stmt) parts() []string {
 		p = append(p, "WITH", "(TIMESTAMP='ts', TIMEUNIT='ms')")
 	case 2:
 		p = append(p, "WITH", "(TIMESTAMP='ts', TIMEUNIT='ms', MAXOUTOFORDERNESS='1s', ALLOWEDLATENESS='2s', IDLETIMEOUT='5s')")
+	}
+	if s.Having != "" && s.WithFirst {
+		p = append(p, "HAVING", s.Having)
 	}
 	if len(s.Order) > 0 {
 		var ks []string
@@ -332,6 +336,14 @@ func c11Stmts(tier string) []c11Stmt {
 					}
 				}
 			}
+		}
+	}
+	// clause order: WITH (...) before HAVING
+	for i, n := 0, len(out); i < n; i++ {
+		if out[i].Having != "" && out[i].With > 0 && i%3 == 0 {
+			v := out[i]
+			v.WithFirst = true
+			out = append(out, v)
 		}
 	}
 	// the same statements with keyword-bearing identifiers (every 3rd one, shifted per name set; JOIN statements keep their names)
